@@ -993,6 +993,7 @@ func c14guarded(r *verifkit.Result, c c14case) (hungFamily string) {
 	defer timer.Stop()
 	last := cx.cur.Load()
 	lastChange := time.Now()
+	sameTicks := 0 // ticks this process really sat through with the same call pending (a clock jump adds none)
 	for {
 		select {
 		case <-done:
@@ -1006,7 +1007,8 @@ func c14guarded(r *verifkit.Result, c c14case) (hungFamily string) {
 			now := cx.cur.Load()
 			if now != last {
 				last, lastChange = now, time.Now()
-			} else if now != nil && time.Since(lastChange) > c14stall {
+				sameTicks = 0
+			} else if sameTicks++; now != nil && time.Since(lastChange) > c14stall && sameTicks >= int(c14stall/time.Second) {
 				r.Violate(now.fn+"/hang", cx.describe(now)+fmt.Sprintf(": no answer within %v", c14stall), cx.c)
 				fam := now.family
 				c14disabled[fam] = true
